@@ -176,7 +176,7 @@ def registry_cases(chk):
     steps = 2 if chk.tier == "quick" else 3
     res = chk.model_check("MC_Registry", {"constants": {"MaxSteps": str(steps)},
                                           "invariants": ["CompleteCustomTypeAlwaysDispatches", "BuiltinsKeepTheirVisit",
-                                                         "StateIsRunOfHistory"],
+                                                         "StateIsRunOfHistory", "PrivateFormatterHelpersStayPrivate"],
                                           "properties": ["RegistrationIsLocal", "ExtensionIsLocal"]},
                           name="C16_MC_Registry", dump=True)
     events = []
